@@ -141,7 +141,7 @@ impl CredentialStore for RefStore {
             .creds
             .iter()
             .filter(|pk| pk.rp_id == rp_id)
-            .filter(|pk| ids.is_none_or(|ids| ids.iter().any(|d| d.id == pk.credential_id)))
+            .filter(|pk| self.cfg.ignore_ids || ids.is_none_or(|ids| ids.iter().any(|d| d.id == pk.credential_id)))
             .cloned()
             .collect();
         if self.cfg.newest_first {
@@ -219,13 +219,13 @@ impl AnyBackend {
 
     pub fn debug_all(&self) -> Vec<String> {
         match self {
-            AnyBackend::Ref(r) => r.creds.iter().map(|p| format!("{p:?}")).collect(),
+            AnyBackend::Ref(r) => r.creds.iter().map(|p| format!("{p:?}\n{p:#?}")).collect(),
             AnyBackend::Memory(m) => {
-                let mut v: Vec<String> = m.iter().map(|(k, p)| format!("{}:{p:?}", hex(k))).collect();
+                let mut v: Vec<String> = m.iter().map(|(k, p)| format!("{}:{p:?}\n{p:#?}", hex(k))).collect();
                 v.sort();
                 v
             }
-            AnyBackend::Slot(s) => vec![format!("{s:?}")],
+            AnyBackend::Slot(s) => vec![format!("{s:?}\n{s:#?}")],
         }
     }
 
@@ -259,6 +259,12 @@ pub struct Seam {
 
 impl Seam {
     fn begin(&self, kind: Option<SeamKind>, ev: Ev) -> (u32, u32, Option<u8>) {
+        let (a, b, f) = self.begin2(kind, ev);
+        (a, b, f.map(|x| x.0))
+    }
+
+    /// as `begin`, the fault with its `late` flag
+    fn begin2(&self, kind: Option<SeamKind>, ev: Ev) -> (u32, u32, Option<(u8, bool)>) {
         let mut w = lk(&self.world);
         w.log(ev);
         let task = current_task();
@@ -274,7 +280,7 @@ impl Seam {
                 .faults
                 .iter()
                 .find(|f| f.seam == kind && (f.nth == n || (f.sticky && n >= f.nth)))
-                .map(|f| f.status);
+                .map(|f| (f.status, f.late));
         }
         let pre = plan.next_yield();
         let post = plan.next_yield();
@@ -410,10 +416,26 @@ impl CredentialStore for Seam {
 
     async fn update_credential(&mut self, cred: Passkey) -> Result<(), StatusCode> {
         let snap = CredSnap::of(&cred);
-        let (pre, post, fault) =
-            self.begin(Some(SeamKind::Update), Ev::Update { cred: snap.clone() });
+        let (pre, post, fault) = self.begin2(Some(SeamKind::Update), Ev::Update { cred: snap.clone() });
         YieldN(pre).await;
-        if let Some(st) = fault {
+        if let Some((st, late)) = fault {
+            if late {
+                // the write is applied, the acknowledgement is lost
+                let prev = lk(&self.world).contents.iter().find(|c| c.id == snap.id).cloned();
+                let applied = match &mut self.backend {
+                    AnyBackend::Ref(b) => b.update_credential(cred).await,
+                    AnyBackend::Memory(b) => b.update_credential(cred).await,
+                    AnyBackend::Slot(b) => b.update_credential(cred).await,
+                };
+                if applied.is_ok() {
+                    self.publish();
+                    let mut w = lk(&self.world);
+                    if w.contents.contains(&snap) {
+                        w.log(Ev::Applied { save: false, cred: snap.clone(), prev });
+                    }
+                    w.fire("store_err_after_applying");
+                }
+            }
             lk(&self.world).log(Ev::UpdateRet { result: Err(st), injected: true });
             return Err(StatusCode::from(st));
         }
@@ -683,6 +705,9 @@ pub const RPS: &[Rp] = &[
     Rp { url: Some("https://www.b\u{fc}cher.example:8443"), rp_id: None, effective: "www.xn--bcher-kva.example", origin: "https://www.xn--bcher-kva.example:8443" },
     // a second Android app whose certificate fingerprint is full of the sextets on which base64 and base64url differ
     Rp { url: None, rp_id: Some("example.org"), effective: "example.org", origin: "android:apk-key-hash:" },
+    // development hosts below localhost are relying parties of their own
+    Rp { url: Some("https://app.localhost"), rp_id: None, effective: "app.localhost", origin: "https://app.localhost" },
+    Rp { url: Some("https://other.localhost:8443"), rp_id: Some("other.localhost"), effective: "other.localhost", origin: "https://other.localhost:8443" },
 ];
 
 /// ++++////Pj4+... in base64, ----____Pj4-... in base64url
@@ -985,7 +1010,8 @@ fn resolve_id(r: &IdRef, creds: &[ModelCred], rp: &str) -> Vec<u8> {
         IdRef::Last => creds.last().map(|c| c.id.clone()).unwrap_or_else(|| fallback(0)),
         IdRef::Unknown(b) => b.clone(),
         IdRef::NearMiss(n, mode) => {
-            let mut id = pick(creds.iter().filter(|c| c.rp_id == rp).collect(), *n).unwrap_or_else(|| fallback(*n));
+            // (of the op's RP if it has credentials, of any RP otherwise)
+            let mut id = pick(creds.iter().filter(|c| c.rp_id == rp).collect(), *n).or_else(|| pick(creds.iter().collect(), *n)).unwrap_or_else(|| fallback(*n));
             match mode % 6 {
                 0 => {
                     id.pop();
@@ -1155,7 +1181,8 @@ fn render<T: Serialize + std::fmt::Debug>(v: &T) -> Renders {
     let _ = ciborium::ser::into_writer(v, &mut cbor);
     Renders {
         json: serde_json::to_string(v).unwrap_or_default(),
-        debug: format!("{v:?}"),
+        // both formatter modes: `{:?}` and the pretty `{:#?}` (the flag reaches nested values)
+        debug: format!("{v:?}\n{v:#?}"),
         cbor,
     }
 }
@@ -1181,6 +1208,59 @@ fn prf_out(v: &webauthn::AuthenticationExtensionsPrfValues) -> (Vec<u8>, Option<
 
 fn ctap_prf_out(v: &AuthenticatorPrfValues) -> (Vec<u8>, Option<Vec<u8>>) {
     (v.first.to_vec(), v.second.map(|b| b.to_vec()))
+}
+
+fn build_mc_request(s: &McSpec, op: &Op, creds: &[ModelCred], resolved: &mut Resolved) -> ctap2::make_credential::Request {
+    let exclude = s
+        .exclude
+        .as_ref()
+        .map(|l| l.iter().map(|r| resolve_id(r, creds, &s.rp_id)).collect::<Vec<_>>());
+    resolved.exclude = exclude.clone();
+    let extensions = ctap2::make_credential::ExtensionInputs {
+        hmac_secret: s.hmac_secret,
+        hmac_secret_mc: s.hmac_secret_mc.then(|| ctap2::extensions::HmacGetSecretInput {
+            key_agreement: ciborium::value::Value::Map(vec![(ciborium::value::Value::Integer(1.into()), ciborium::value::Value::Integer(2.into()))]),
+            salt_enc: vec![0x5a; 32].into(),
+            salt_auth: vec![0xa5; 16].into(),
+            pin_uv_auth_protocol: Some(2),
+        }),
+        prf: s.prf.as_ref().map(|p| ctap_prf(p, creds, &s.rp_id, &mut resolved.ctap_by_cred)),
+    }
+    .zip_contents();
+    ctap2::make_credential::Request {
+        client_data_hash: s.cdh.clone().into(),
+        rp: ctap2::make_credential::PublicKeyCredentialRpEntity { id: s.rp_id.clone(), name: Some(sim_name(s.names, "Sim relying party")) },
+        user: webauthn::PublicKeyCredentialUserEntity {
+            id: s.user_id.clone().into(),
+            display_name: sim_name(s.names, "d"),
+            name: sim_name(s.names, "n"),
+        },
+        pub_key_cred_params: alg_params(&s.algs),
+        exclude_list: exclude.as_ref().map(|l| descriptors(l, &op.unknown_type, &op.list_transports)),
+        extensions,
+        options: ctap2::make_credential::Options { rk: s.rk, up: s.up, uv: s.uv },
+        pin_auth: s.pin_auth.then(|| if s.pin_empty { Vec::new() } else { vec![1u8; 16] }.into()),
+        pin_protocol: s.pin_auth.then_some(1),
+    }
+}
+
+fn mc_result(res: Cancellable<Result<ctap2::make_credential::Response, StatusCode>>) -> OpResult {
+    match res {
+        Cancellable::Cancelled(k) => OpResult::Cancelled(k),
+        Cancellable::Finished(Err(e)) => OpResult::Mc(Err(serr(e))),
+        Cancellable::Finished(Ok(r)) => OpResult::Mc(Ok(McOut {
+            auth_data: r.auth_data.to_vec(),
+            fmt: r.fmt.clone(),
+            prf_enabled: r.unsigned_extension_outputs.as_ref().and_then(|u| u.prf.as_ref()).map(|p| p.enabled),
+            prf_results: r
+                .unsigned_extension_outputs
+                .as_ref()
+                .and_then(|u| u.prf.as_ref())
+                .and_then(|p| p.results.as_ref())
+                .map(ctap_prf_out),
+            renders: render(&r),
+        })),
+    }
 }
 
 fn build_ga_request(s: &GaSpec, op: &Op, creds: &[ModelCred], resolved: &mut Resolved) -> ctap2::get_assertion::Request {
@@ -1319,7 +1399,11 @@ async fn item_actor_main(task: usize, actor: Actor, mut auth: ItemAuth, world: S
                 let request = build_ga_request(s, op, &creds, &mut resolved);
                 ga_result(CancelAfter::new(ItemAuth::get_assertion(&mut auth, request), op.cancel_after, polls.clone()).await)
             }
-            _ => OpResult::Skipped("the item world runs CTAP-level assertions only".into()),
+            OpKind::MakeCredential(s) => {
+                let request = build_mc_request(s, op, &creds, &mut resolved);
+                mc_result(CancelAfter::new(ItemAuth::make_credential(&mut auth, request), op.cancel_after, polls.clone()).await)
+            }
+            _ => OpResult::Skipped("the item world runs CTAP-level ceremonies only".into()),
         };
         let (after, return_seq) = {
             let mut w = lk(&world);
@@ -1559,59 +1643,14 @@ async fn run_op(
             }
         }
         OpKind::MakeCredential(s) => {
-            let exclude = s
-                .exclude
-                .as_ref()
-                .map(|l| l.iter().map(|r| resolve_id(r, &creds, &s.rp_id)).collect::<Vec<_>>());
-            resolved.exclude = exclude.clone();
-            let extensions = ctap2::make_credential::ExtensionInputs {
-                hmac_secret: s.hmac_secret,
-                hmac_secret_mc: s.hmac_secret_mc.then(|| ctap2::extensions::HmacGetSecretInput {
-                    key_agreement: ciborium::value::Value::Map(vec![(ciborium::value::Value::Integer(1.into()), ciborium::value::Value::Integer(2.into()))]),
-                    salt_enc: vec![0x5a; 32].into(),
-                    salt_auth: vec![0xa5; 16].into(),
-                    pin_uv_auth_protocol: Some(2),
-                }),
-                prf: s.prf.as_ref().map(|p| ctap_prf(p, &creds, &s.rp_id, &mut resolved.ctap_by_cred)),
-            }
-            .zip_contents();
-            let request = ctap2::make_credential::Request {
-                client_data_hash: s.cdh.clone().into(),
-                rp: ctap2::make_credential::PublicKeyCredentialRpEntity { id: s.rp_id.clone(), name: Some(sim_name(s.names, "Sim relying party")) },
-                user: webauthn::PublicKeyCredentialUserEntity {
-                    id: s.user_id.clone().into(),
-                    display_name: sim_name(s.names, "d"),
-                    name: sim_name(s.names, "n"),
-                },
-                pub_key_cred_params: alg_params(&s.algs),
-                exclude_list: exclude.as_ref().map(|l| descriptors(l, &op.unknown_type, &op.list_transports)),
-                extensions,
-                options: ctap2::make_credential::Options { rk: s.rk, up: s.up, uv: s.uv },
-                pin_auth: s.pin_auth.then(|| if s.pin_empty { Vec::new() } else { vec![1u8; 16] }.into()),
-                pin_protocol: s.pin_auth.then_some(1),
-            };
+            let request = build_mc_request(s, op, &creds, resolved);
             let auth: &mut SimAuth = client.authenticator_mut();
             let res = if s.via_trait {
                 CancelAfter::new(<SimAuth as Ctap2Api>::make_credential(auth, request), op.cancel_after, polls).await
             } else {
                 CancelAfter::new(SimAuth::make_credential(auth, request), op.cancel_after, polls).await
             };
-            match res {
-                Cancellable::Cancelled(k) => OpResult::Cancelled(k),
-                Cancellable::Finished(Err(e)) => OpResult::Mc(Err(serr(e))),
-                Cancellable::Finished(Ok(r)) => OpResult::Mc(Ok(McOut {
-                    auth_data: r.auth_data.to_vec(),
-                    fmt: r.fmt.clone(),
-                    prf_enabled: r.unsigned_extension_outputs.as_ref().and_then(|u| u.prf.as_ref()).map(|p| p.enabled),
-                    prf_results: r
-                        .unsigned_extension_outputs
-                        .as_ref()
-                        .and_then(|u| u.prf.as_ref())
-                        .and_then(|p| p.results.as_ref())
-                        .map(ctap_prf_out),
-                    renders: render(&r),
-                })),
-            }
+            mc_result(res)
         }
         OpKind::GetAssertion(s) => {
             let request = build_ga_request(s, op, &creds, resolved);
@@ -1682,12 +1721,21 @@ async fn run_op(
             }
         }
         OpKind::U2fAuthenticate { challenge, application, handle, counter, presence, p1, le } => {
-            let h = resolve_id(handle, &creds, "");
-            // application: literal, or the one the referenced credential was registered under
+            let mut h = resolve_id(handle, &creds, "");
+            // (a U2F frame cannot carry more than 255 bytes of key handle)
+            if h.len() > 255 {
+                h.truncate(254);
+            }
+            // application: literal, or the one the referenced credential (for a near miss: the credential
+            // it was derived from) was registered under
+            let base = match handle {
+                IdRef::NearMiss(n, _) => resolve_id(&IdRef::Nth(*n), &creds, ""),
+                _ => h.clone(),
+            };
             let app = match application {
                 Some(a) => a.clone(),
                 None => {
-                    let rp = creds.iter().find(|c| c.id == h).map(|c| c.rp_id.clone()).unwrap_or_default();
+                    let rp = creds.iter().find(|c| c.id == base).map(|c| c.rp_id.clone()).unwrap_or_default();
                     crate::model::b64url_decode(&rp).filter(|b| b.len() == 32).unwrap_or_else(|| vec![0x5a; 32])
                 }
             };
